@@ -15,8 +15,10 @@ def nf_cfg(q, addrs, ms, mu, mst, mt, types="{ 34, 1, 12, 23 }", ans="{ 129, 137
             "CHECK_DEADLOCK FALSE\n") % (", ".join('"%s"' % x for x in q), addrs, types, ans, ms, mu, mst, mt)
 
 MC_BOUNDS = {   # (addrs, sends, uplinks, stall notices, ticks)
-    ("C03", "quick"): ("MC_AddrsSmall", 4, 2, 1, 1), ("C03", "thorough"): ("MC_Addrs", 5, 3, 2, 2),
-    ("C04", "quick"): ("MC_AddrsSmall", 3, 1, 3, 0), ("C04", "thorough"): ("MC_AddrsDeep", 4, 2, 4, 1),
+    # thorough bounds are the largest measured to finish well inside the time limit (8.7M / 3.3M distinct states, about
+    # 5 - 10 minutes); one more send or address exceeds 15 minutes
+    ("C03", "quick"): ("MC_AddrsSmall", 4, 2, 1, 1), ("C03", "thorough"): ("MC_Addrs", 4, 3, 1, 1),
+    ("C04", "quick"): ("MC_AddrsSmall", 3, 1, 3, 0), ("C04", "thorough"): ("MC_Addrs", 3, 2, 3, 0),
 }
 
 def na_of(addr): return (list(addr) + [0, 0, 0])[:3]
